@@ -660,6 +660,7 @@ class LoopMon:
         self.cur = {}                  # id -> tag: active on this connection
         self.resumed = False
         self.netq = []                 # broker packets written on this connection, not yet read: (kind, id)
+        self.spurious = False          # an aborted batch held an ack the monitor cannot attribute (see feed)
         self.nontrivial = set()
 
     def v(self, prop, text):
@@ -688,11 +689,18 @@ class LoopMon:
         return True
 
     def run_batch(self, stop_on_refusal):
+        """returns the acks that could not be applied yet: in a batch the client accepted as a whole
+        they acknowledge a publish written (collision resolved) earlier in that same batch, which
+        the monitor only sees in this poll's WIRE"""
         batch, self.netq = self.netq[:9], self.netq[9:]
+        deferred = []
         for (kind, i) in batch:
-            if not self.apply(kind, i) and stop_on_refusal:
-                self.netq = []
-                return
+            if not self.apply(kind, i):
+                if stop_on_refusal:
+                    self.netq = []
+                    return []
+                deferred.append((kind, i))
+        return deferred
 
     def feed(self, line, ans):
         t = line.split()
@@ -714,6 +722,8 @@ class LoopMon:
                 x = self.st.get(tag)
                 if k < self.excuse_point or tag in held_tags or (x and (x[0] == "A" or (x[0] == "R" and x[1] in held_rel))):
                     continue
+                if self.spurious and x is None:
+                    continue
                 self.v("C02", "publish with payload %s was accepted, never finally acknowledged, and is not held for retransmission at the end (held: %s)" % (tag, held))
             return
         if t[0] != "POLL":
@@ -724,8 +734,18 @@ class LoopMon:
                 self.v("C10", "unparsable loop answer %r" % ans)
             return
         kind, arg, wire = m.group(1), m.group(2), m.group(3).split()
+        deferred = []
         if kind == "ERROR":
-            if self.netq:
+            if self.netq and arg == "ConnectionAborted":
+                # the connection ended right after this batch: the client processed all of it, its
+                # replies were never flushed.  An ack the monitor cannot attribute may have hit a
+                # publish the client had just recorded under that id (collision resolved inside the
+                # batch, write unflushed): a duplicate ack from the broker then acknowledges, for the
+                # client, a publish the broker never saw.  That is the broker's doing; the end-of-history
+                # C02 check is then limited to publishes the broker has seen.
+                if self.run_batch(stop_on_refusal=False):
+                    self.spurious = True
+            elif self.netq:
                 self.run_batch(stop_on_refusal=True)
             self.netq = []
             self.gen += 1
@@ -746,7 +766,7 @@ class LoopMon:
         elif kind == "EVENT" and arg.startswith("I(") and self.netq:
             f = arg[2:-1].split(":")
             if (f[0], int(f[1]) if len(f) > 1 and f[1].isdigit() else 0) == self.netq[0]:
-                self.run_batch(stop_on_refusal=False)      # this poll ran the read batch
+                deferred = self.run_batch(stop_on_refusal=False)      # this poll ran the read batch
         if kind == "EVENT" and arg.startswith("O(AWAITACK:"):
             self.nontrivial.add("loop-collision")
         for w in wire:
@@ -778,6 +798,8 @@ class LoopMon:
                 for tg, x in self.st.items():
                     if x[0] == "R" and x[1] == i:
                         self.cur[i] = tg
+            while deferred and self.apply(*deferred[0]):
+                deferred.pop(0)
 
 
 def gen_loop_history(rng, model, mx):
